@@ -94,7 +94,9 @@ def mk_script(tid, shape, kinds, variant, masks, rng, n_ent, n_raised=0, dead=()
             m["churn"] = [i for i in m["ids"] if rng.random() < 0.3]
         members.append(m)
     return {"tid": tid, "shape": shape, "variant": variant, "n_ent": n_ent, "n_raised": n_raised,
-            "dead": list(dead), "doomed": list(doomed), "threads": threads, "tree": list(tree), "members": members}
+            "dead": list(dead), "doomed": list(doomed), "threads": threads, "tree": list(tree), "members": members,
+            # every third world with real entities is maintained before the join (created-and-deleted in one frame, merged)
+            "maintain": n_ent > 0 and tid % 3 == 0}
 
 
 def gen_scripts(seed, tier, want_par):
@@ -166,6 +168,17 @@ def gen_scripts(seed, tier, want_par):
                 scripts.append(mk_script(tid, shape, kinds, v, masks, rng, n_ent, n_raised, dead,
                                          threads=pools[(ci + tid) % len(pools)], tree=tr[(ci * 7 + tid) % len(tr)], doomed=doomed))
                 tid += 1
+    if want_par:
+        # deep producer trees: a thousand members, one per 64-index word, split ten and more levels deep
+        # (scripted trees; and real pools of up to 64 threads on the same memberships)
+        wide = [64 * k + (k % 7) for k in range(1024)]
+        for i in range(6 if tier == "quick" else 40):
+            shape, kinds = [("r", ["r"]), ("b_r", ["b", "r"]), ("w_r", ["w", "r"]), ("e_r", ["e", "r"])][i % 4]
+            a = wide if i % 2 == 0 else [u for u in wide if rng.random() < 0.8]
+            depth = rng.choice([9, 10, 12])
+            tree = [1] * depth + [0] * (depth + 1) if i % 3 else [1] * depth + [0, 1, 0, 0] + [0] * depth
+            scripts.append(mk_script(tid, shape, kinds, "split" if i % 3 else "par", [a, a], rng, 0, threads=64, tree=tree))
+            tid += 1
     return scripts
 
 
